@@ -493,6 +493,7 @@ impl Engine {
 
     /// The Reopen op: close handles, reopen from the raw bytes, continue on the new object.
     pub fn reopen(&mut self, strict: bool, what: &str) -> Result<(), Fail> {
+        let strict = strict && !self.oracles.no_strict;
         self.close_all_handles()?;
         self.trace.push(format!("reopen(strict={}) [{}]", strict, what));
         let io = if let Some(p) = self.oracles.file_path.clone() {
